@@ -195,3 +195,16 @@ Proof.
   intros H Hg. apply (e2e_check13_closed _ _ _ _ _ _ _ _ _ _ _ _ _ _ _ H).
   destruct Hg as [-> | ->]; [reflexivity|now destruct idem].
 Qed.
+
+(* an answer of the final_definitive class ends its fiber under every built-in policy, in every
+   session state, and its error is not ignorable: `execute` returns it as soon as it completes *)
+Lemma final_definitive_spec e : final_definitive e = true ->
+  Spec.can_be_ignored (Err (Spec.LastAttemptError (conv_err e))) = false /\
+  forall s idem cl, snd (decide s (mk_ri e idem cl)) = DontRetry.
+Proof.
+  destruct e as [| | | | | | |d| | | |]; try discriminate.
+  destruct d; try discriminate; intros _; (split; [reflexivity|]);
+    intros [ds|w|] idem cl; cbn; try reflexivity;
+    try (destruct (is_serial cl); reflexivity);
+    destruct cl; reflexivity.
+Qed.
